@@ -24,5 +24,5 @@ CHECK = dict(
     budget_s={"quick": 100, "thorough": 1500},
     shards={"quick": 16, "thorough": 16},
     gomaxprocs=1,
-    mem_kb=12 * 1024 * 1024,
+    mem_kb=14 * 1024 * 1024,
 )
